@@ -888,14 +888,14 @@ func streamParsers(c *Ctx, builders map[string][]builderInfo) {
 					detail := arg.String()
 					if arg.Op == "call" && arg.Name == "builtin:append" && len(arg.Args) == 2 && arg.Args[0].Op == "global" {
 						// the stripped key must come from a store prefixed with the same variable
-						good = arg.Args[0].Name == sec && closureIteratesPrefix(c, f, sec)
+						good = arg.Args[0].Name == sec && (closureIteratesPrefix(c, f, sec) || boundUsersIterateShape(c, f, in, full[:1]))
 						detail = "re-prefixed with " + arg.Args[0].Name
 					} else if arg.Op == "call" && strings.HasSuffix(arg.Name, ".Key") {
 						good = iteratorOverSection(c, f, sec)
 					}
 					r.Require(good, "A11.reprefix", fn(f)+"|AddressesFromStreamKey", pos(c, in), "the full-key parser receives a complete stream key (iterator key of the section, or the section prefix re-attached to a prefix-store key)", detail)
 				case "x/stream/types.FirstAddressFromStreamStoreKey":
-					good := closureIteratesShape(c, f, full[:2])
+					good := closureIteratesShape(c, f, full[:2]) || boundUsersIterateShape(c, f, in, full[:2])
 					r.Require(good, "A11.reprefix", fn(f)+"|FirstAddressFromStreamStoreKey", pos(c, in), "the single-address parser is used only on keys of a store prefixed by Const·LenPrefixed(receiver)", "prefix store of the enclosing query has another layout")
 				}
 			}
@@ -1070,4 +1070,51 @@ func boundValueMakers(c *Ctx, f *ssa.Function) []*ssa.Function {
 	}
 	sortFuncs(out)
 	return out
+}
+
+// boundUsersIterateShape: the parser call `site` stands in a function reached from methods that are handed on as bound
+// method values (a collector with a mode field: `if c.receiver != nil { single-address parser } else { full-key parser }`).
+// Each function that takes such a value is judged on its own: the callback is walked with the collector bound to what it
+// held where the value was taken (an unset mode field is nil, a parsed address is not), and only the takers for which the
+// site can be reached must page a store prefixed in the wanted layout. At least one taker must reach it.
+func boundUsersIterateShape(c *Ctx, f *ssa.Function, site ssa.Instruction, want []Seg) bool {
+	w := c.W
+	users := 0
+	for _, g := range w.Funcs {
+		if w.IsGenerated(g) {
+			continue
+		}
+		for _, b := range g.Blocks {
+			for _, in := range b.Instrs {
+				mc, ok := in.(*ssa.MakeClosure)
+				if !ok {
+					continue
+				}
+				wfn, _ := mc.Fn.(*ssa.Function)
+				method := ir.BoundTarget(wfn)
+				if method == nil {
+					continue
+				}
+				if _, reaches := w.Reachable([]*ssa.Function{method})[f]; !reaches && method != f {
+					continue
+				}
+				root := w.FlatRootBound(mc, method)
+				if w.FlatReaches(root, nil, nil, func(p ir.FPos) bool { return p.In == site }) == nil {
+					continue // this taker's collector never takes the branch the parser stands on
+				}
+				users++
+				ok2 := false
+				for _, e := range prefixStores(c, g) {
+					s, err := keyShape(c, w.Expand(e, 6), 0)
+					if err == nil && kindsEqual(s, want) {
+						ok2 = true
+					}
+				}
+				if !ok2 {
+					return false
+				}
+			}
+		}
+	}
+	return users > 0
 }
